@@ -279,13 +279,36 @@ def check_registry_miss(rep, core):
         return
     panics = [bb for bb, kind, detail, t in panic_sites(f) if not (kind == 'expect' and 'PoisonError' in ((t['args'][0].get('t') if t['args'] else '') or ''))]
     miss_edges = []
+    look_bbs = [b for b, t in looks]
+
+    def level(place, depth=0):
+        """what the value tested is, in terms of the lookup: 'option' (the lookup's own result), 'result' (`.ok_or(..)` of it),
+        'flow' (`?` applied to either); None when it is something else"""
+        src = origins(f, place)
+        if not src or depth > 3:
+            return None
+        kinds = set()
+        for x in src:
+            if x.kind != 'call' or x.suffix:
+                return None
+            if x.bb in look_bbs:
+                kinds.add('option')
+            elif call_matches(x.term, ['core::option::Option::ok_or', 'core::option::Option::ok_or_else']) and level(x.term['args'][0], depth + 1) == 'option':
+                kinds.add('result')
+            elif call_matches(x.term, ['core::ops::try_trait::Try::branch']) and level(x.term['args'][0], depth + 1) in ('option', 'result'):
+                kinds.add('flow')
+            else:
+                return None
+        return kinds.pop() if len(kinds) == 1 else None
     for sb, st in f.terms('switch'):
         for o in origins(f, st['a']):
             if o.kind == 'rvalue' and o.stmt['rv']['k'] == 'discr':
-                src = origins(f, o.stmt['rv']['a'])
-                if any(x.kind == 'call' and x.bb in [b for b, t in looks] and not x.suffix for x in src):
-                    none = [b for v, b in st['arms'] if v == 0]
-                    miss_edges += [(sb, b) for b in none] or [(sb, st['otherwise'])]
+                lv = level(o.stmt['rv']['a'])
+                if lv is not None:
+                    # not found = None (0) of the Option, Err (1) of the Result, Break (1) of the ControlFlow
+                    want = 0 if lv == 'option' else 1
+                    hit = [b for v, b in st['arms'] if v == want]
+                    miss_edges += [(sb, b) for b in hit] or [(sb, st['otherwise'])]
             if o.kind == 'call' and o.bb in [b for b, t in looks] and 'contains' in last_seg(o.term.get('callee') or ''):
                 miss_edges += [(sb, b) for v, b in st['arms'] if v == 0]
     if not miss_edges:
@@ -297,6 +320,8 @@ def check_registry_miss(rep, core):
     rep.expect('R02.h', not any(p in reach for p in panics), 'resume|miss-no-panic', 'the not-found edge reaches no panic',
                'ResolveRegistry::resume panics when no request is outstanding under the id (a second resolution of a one-shot over the bridge)')
     errs = [bb for bb, i, s in f.stmts('assign') if s['rv']['k'] == 'agg' and s['rv'].get('variant') == 'Err' and path_matches(s['rv'].get('adt'), 'core::result::Result')]
+    # `?` builds the returned Err in from_residual
+    errs += [bb for bb, t in f.calls('core::ops::try_trait::FromResidual::from_residual')]
     rets = f.return_blocks()
     ok = bool(errs) and all(b in errs or not any(r in f.reachable([b], removed_blocks=errs) for r in rets) for sb, b in miss_edges)
     rep.expect('R02.h', ok, 'resume|miss-returns-err', 'every path from the not-found edge to the return constructs an Err',
@@ -389,7 +414,7 @@ def check_deserializing(rep, core):
                     for o in origins(g, t['args'][1]):
                         if o.kind == 'agg' and o.stmt['rv'].get('ak') == 'tuple':
                             inner = origins(g, o.stmt['rv']['ops'][0])
-                            fed = bool(inner) and all(x.kind == 'call' and x.bb == db and any(s_[0] == 'try' for s_ in x.steps) for x in inner)
+                            fed = bool(inner) and all(x.kind == 'call' and x.bb == db and (any(s_[0] == 'try' for s_ in x.steps) or x.suffix == ['as Ok', '.0']) for x in inner)
                     invocations.append(('direct', fed))
             # B / C: given to a combinator on the deserialiser's result
             for bb, t in g.calls('core::result::Result::map', 'core::result::Result::and_then'):
